@@ -36,6 +36,7 @@ class Contract:
     params: List[str] = field(default_factory=list)         # for contracts of functions without an AST (dataclass __init__)
     defaults: Dict[str, str] = field(default_factory=dict)
     defs: Dict[str, str] = field(default_factory=dict)          # named lambdas usable in the clauses
+    ghost_args: Dict[str, Dict[str, str]] = field(default_factory=dict)   # callee short name -> {callee ghost name: expression in the caller}
     merge_ifs: bool = False                                    # merge the two branches of an if when both fall through
     ghost_init: Dict[str, str] = field(default_factory=dict)    # initial values of ghost variables (prover's choice; assumed at entry only)
 
